@@ -29,7 +29,7 @@ func (gs GenesisState) Validate() error {
 	allowedBidderIndexMap := make(map[string]struct{})
 
 	for _, elem := range gs.AllowedBidderList {
-		index := fmt.Sprint(elem.AuctionId)
+		index := fmt.Sprint(elem.AuctionId, "/", elem.Bidder)
 		if _, ok := allowedBidderIndexMap[index]; ok {
 			return fmt.Errorf("duplicated index for allowedBidder")
 		}
@@ -43,7 +43,7 @@ func (gs GenesisState) Validate() error {
 	vestingQueueIndexMap := make(map[string]struct{})
 
 	for _, elem := range gs.VestingQueueList {
-		index := fmt.Sprint(elem.AuctionId)
+		index := fmt.Sprint(elem.AuctionId, "/", elem.ReleaseTime.UnixNano())
 		if _, ok := vestingQueueIndexMap[index]; ok {
 			return fmt.Errorf("duplicated index for vestingQueue")
 		}
@@ -54,12 +54,13 @@ func (gs GenesisState) Validate() error {
 		}
 	}
 	// Check for duplicated ID in bid
-	bidIdMap := make(map[uint64]bool)
+	bidIdMap := make(map[string]bool)
 	for _, elem := range gs.BidList {
-		if _, ok := bidIdMap[elem.Id]; ok {
+		index := fmt.Sprint(elem.AuctionId, "/", elem.Id)
+		if _, ok := bidIdMap[index]; ok {
 			return fmt.Errorf("duplicated id for bid")
 		}
-		bidIdMap[elem.Id] = true
+		bidIdMap[index] = true
 
 		if err := elem.Validate(); err != nil {
 			return err
